@@ -68,3 +68,19 @@ check("C30", "exploration", "deterministic simulation of connection attempts und
 check("C31", "exploration", "deterministic cluster simulation with signature-heavy admissible transactions; every frame handed to the transport seam measured against the transport maximum",
   "35+ admissible transactions whose signed envelopes total more than the 32 MiB transport maximum (256 inputs x 64 signatures each) are admitted on one node so that the real batcher forms its batches; every frame any node hands to the transport is measured and bundle frames are parsed back. Few runs per tier (half a million signatures per run). The defect found was repaired (known_findings.json).",
   _r1note + " QUIC stream framing is a stub; the refuse-before-allocate rule of the receiver is not exercised.", "DESIGN.md section 8 C31")
+_memnote = _r1note + " Long-horizon membership rig: the history (ordinary snapshots, pledge, accept, removal, custodian update) is manufactured by finalization injection with certificates computed from the nodes' own key vector at the snapshot timestamp; the clock jumps from window to window; key-only identities stand for members beyond the real nodes; the universal mint is not reachable in these histories."
+check("C10", "exploration", "deterministic cluster simulation over long-horizon membership histories (clock jumps, injected pledge/accept/remove, restarts); arithmetic quorum-intersection oracle on (threshold, key vector) queried from every node at all boundaries",
+  "Membership histories over simulated weeks; after every record every live node is asked for the certificate threshold and the key vector of every chain (incl. the pledging chain's round zero) at all record, +30 s, +12 h and window boundaries (+-1 ns); 3*(2T-|K|) > |K| judged by arithmetic. One genuine defect (round-zero acceptance certificate) is recorded as a known finding.",
+  _memnote, "DESIGN.md section 8 C10")
+check("C11", "exploration", "deterministic cluster simulation over long-horizon membership histories; cross-node and model comparison of the membership view at record boundaries, before and after restarts",
+  "After every membership record every live node's accepted-member view is compared across nodes and with the rig's own model at t-1, t, t+1 and the 12 h / reference-threshold boundaries; restarts interleaved.",
+  _memnote, "DESIGN.md section 8 C11")
+check("C28", "exploration", "deterministic cluster simulation over membership/custodian histories with validly certified forbidden variants (batched consensus operation, stale/missing reference, timestamp not after the last operation) and a scan of every node's durable consensus chain",
+  "Before valid operations the simulator injects certified snapshots that batch a consensus operation with a deposit, reference a stale or no consensus operation, or are stamped at/before the operation they reference (a pledge stamped before a just finalized custodian update, valid in every other respect); none may be stored; every node's CONSENSUSSNAPSHOT chain and multi-transaction snapshots are scanned at the end.",
+  _memnote + " The proposal (announcement) path is exercised only through the validation it shares with the finalization path.", "DESIGN.md section 8 C28")
+check("C29", "exploration", "deterministic cluster simulation over membership histories with clock jumps into and out of the operation windows; cross-node election queries against a membership model; out-of-window and non-elected-proposer variants must be refused",
+  "All live nodes are asked for the elected operator of four operation types at record, +12 h, day and window boundaries (+-1 ns): equal across nodes, never the oldest or newest accepted member of the rig's model, never the removal candidate; certified pledges/acceptances outside their windows and pledges/removals on a non-elected chain must be stored nowhere.",
+  _memnote + " Membership sizes 7..~30 and tens of distinct days per run rather than 7..50 and years.", "DESIGN.md section 8 C29")
+check("C34", "exploration", "deterministic cluster simulation over evolving custodian states: valid updates through real finalization, 18 kinds of single-defect updates injected with valid certificates, durable custodian history compared with a model after updates and restarts",
+  "Each valid update installs a fresh custodian account and entry set (keys kept, moved between members, or fresh) so that later updates are judged against random previous states; defective variants (order, duplicates, each signature, approval by wrong/replaced custodian, underpayment, entry count, unknown node, foreign payee, bit flip, forbidden hour, non-elected proposer, deposit authorized by a replaced custodian) must be stored nowhere; every node's durable custodian history is read back and compared entry by entry.",
+  _memnote + " Entry sets of 7..~15 rather than 50; the pure encode/parse round trip is covered only for the updates that occur in the histories.", "DESIGN.md section 8 C34")
